@@ -193,6 +193,26 @@ def run(chk):
                 if not np.allclose(dl, ll, rtol=1e-12, atol=0, equal_nan=False):
                     chk.fail("Dask row-chunking %s changes log_likelihood" % (parts,),
                              {"entry": "log_likelihood dask", "chunks": list(parts), "x": hexlist(X)})
+    # ---- exact ties between the largest component terms (the same Gaussian listed twice; a +-mu mixture scored on its symmetry plane)
+    for j in range(6 if chk.tier == "quick" else 60):
+        D = r.choice([1, 2, 3])
+        g = gen.nprng(r)
+        mu1 = np.round(g.normal(size=D) * 2, 3)
+        v1 = np.round(g.uniform(0.5, 2.0, size=D), 3)
+        if j % 2:
+            wt_, mut_, vart_ = np.array([0.25, 0.25, 0.5]), np.vstack([mu1, mu1, mu1 + 3.0]), np.vstack([v1, v1, v1])
+            Xt_ = np.vstack([mu1, mu1 + 0.5, mu1 - 1.0])
+        else:
+            wt_, mut_, vart_ = np.array([0.5, 0.5]), np.vstack([mu1, -mu1]), np.vstack([v1, v1])
+            Xt_ = np.vstack([np.zeros(D), np.zeros(D)])
+        mt_ = make_gmm(wt_, mut_, vart_)
+        got_t = np.asarray(mt_.log_likelihood(Xt_), dtype=float)
+        want_t = np.array([ref_ll(wt_, mut_, vart_, x)[0] for x in Xt_])
+        gd_ = np.asarray(mt_.log_likelihood(da.from_array(Xt_, chunks=((1, len(Xt_) - 1), (D,)))).compute(), dtype=float)
+        chk.count(1, key=("tied component terms", j % 2))
+        if not (np.allclose(got_t, want_t, rtol=1e-12, atol=1e-12) and np.allclose(gd_, want_t, rtol=1e-12, atol=1e-12)):
+            chk.fail("with exactly tied component terms (%s) log_likelihood is %s instead of %s" % ("a Gaussian listed twice" if j % 2 else "a +-mu mixture on its symmetry plane", got_t.tolist(), want_t.tolist()),
+                     {"entry": "log_likelihood, tied terms", "w": hexlist(wt_), "mu": hexlist(mut_), "var": hexlist(vart_), "x": hexlist(Xt_)})
     # ---- machines as the package's own trainers leave them (ML / MAP with weight and variance adaptation, NumPy input, also a public
     #      M-step on hand-held statistics): the reported log-likelihood is the formula under the machine's VISIBLE parameters
     from .. import gmmtrain as gt
